@@ -100,8 +100,7 @@ func VerifC17_buildPrimitive() {
 	}
 	n := vrt.Range("nargs", 0, vrt.Param("MAXARGS", 4))
 	vl := vrt.Range("vlen", 0, vrt.Param("VL", 2))
-	isTime := name == "bfe_periodic_time_range" || name == "bfe_time_range"
-	if isTime {
+	if name == "bfe_periodic_time_range" || name == "bfe_time_range" {
 		vl = vrt.Range("tlen", 0, vrt.Param("VLT", 3))
 	}
 	call := &parser.CallExpr{Fun: &parser.Ident{Name: name}}
@@ -114,10 +113,8 @@ func VerifC17_buildPrimitive() {
 			li = vrt.Range("plen", 0, 1) // the period argument must be "" to get past the first check
 		}
 		v := vrt.Str("val", li)
-		if isTime {
-			for j := 0; j < li; j++ {
-				vrt.Assume(v[j] < 0x80)
-			}
+		for j := 0; j < li; j++ {
+			vrt.Assume(v[j] < 0x80) // ASCII argument values (non-ASCII case folding is outside the claim)
 		}
 		call.Args = append(call.Args, &parser.BasicLit{Kind: parser.Token(k), Value: v})
 		if i < len(sig) {
